@@ -49,7 +49,7 @@ def seeded_table():
         if len(obls) > 3:
             more = ' (+%d)' % (len(obls) - 3)
         rows.append('| %s | %s | %s | %s | %s%s |' % (
-            id, meta.get('summary', '').replace('|', '\\|'), 'alarms' if r['own_property_check_alarms'] else ('silent' if r['caught'] else ('undecided (exit 2: stale clauses)' if r.get('exit') == 2 else ('not a violation' if meta.get('expected') == 'not-a-violation' else 'MISSED'))),
+            id, meta.get('summary', '').replace('|', '\\|'), 'alarms' if r['own_property_check_alarms'] else ('silent' if r['caught'] else ('undecided (exit 2: stale clauses)' if r.get('exit') == 2 else ('not a violation' if meta.get('expected') == 'not-a-violation' else ('not caught: inside a recorded finding' if meta.get('expected') == 'masked-by-known-finding' else 'MISSED')))),
             ' '.join(r['caught_by_checks']) or 'none', '<br>'.join('`%s`' % o for o in obls[:3]), more))
     return '\n'.join(rows)
 
